@@ -28,7 +28,8 @@ import (
 //   otherwise                                     -> accepted, recent bucket of second R (R-args.Time in 0..2)
 
 type c10PlaceStep struct {
-	Kind     string `json:"kind"`               // "send" | "tick"
+	Kind     string `json:"kind"`               // "send" | "tick" | "config"
+	NewSW    int    `json:"new_sw,omitempty"`   // config: remote config update sets ShortWindow (takes effect at the next tick)
 	Dt       int    `json:"dt,omitempty"`       // send: args.Time = now + Dt
 	Historic bool   `json:"historic,omitempty"` //
 	Spare    bool   `json:"spare,omitempty"`    //
@@ -64,11 +65,60 @@ func c10PropPlace(t vpT, c c10PlaceCase) (nontrivial bool, classes []string) {
 	cls := map[string]bool{}
 	sends := 0
 	queued := map[uint32]*aggregatorBucket{} // historic buckets seen since the last tick, by second
+	// reference recent window: seconds [oldest, newest]; a tick drops seconds older than now-ShortWindow from the front and
+	// extends the back to oldest+ShortWindow+FutureWindow-1 (it never shrinks from the back); ShortWindow may change at run time
+	sw := c.ShortWindow
+	oldest := c.Now - uint32(sw)
+	newest := c.Now + data_model.FutureWindow - 1
+	increased, armed := false, false
+	checkWindow := func(si int) {
+		m.a.mu.Lock()
+		var times []uint32
+		for _, b := range m.a.recentBuckets {
+			times = append(times, b.time)
+		}
+		m.a.mu.Unlock()
+		for i := 1; i < len(times); i++ {
+			if times[i] != times[i-1]+1 {
+				t.Fatalf("step %d: recent window is not contiguous: bucket times %v (handleSendSourceBucket indexes it by second)", si, times)
+			}
+		}
+		if len(times) == 0 || times[0] != oldest || times[len(times)-1] != newest {
+			t.Fatalf("step %d: recent window is %v, reference [%d..%d] (now %d, ShortWindow %d)", si, times, oldest, newest, now, sw)
+		}
+	}
 	for si, st := range c.Steps {
 		switch st.Kind {
+		case "config":
+			if st.NewSW < 3 || st.NewSW > data_model.MaxShortWindow {
+				t.Fatalf("bad case: ShortWindow %d", st.NewSW)
+			}
+			// what updateConfigRemotelyExperimental does with a parsed remote config
+			m.a.configMu.Lock()
+			config := m.a.configR
+			config.ShortWindow = st.NewSW
+			m.a.configR = config
+			m.a.configMu.Unlock()
+			if st.NewSW > sw {
+				increased = true
+				cls["short-window-increase-step"] = true
+			} else if st.NewSW < sw {
+				cls["short-window-decrease-step"] = true
+			}
+			sw = st.NewSW
 		case "tick":
 			now += uint32(st.Advance)
 			queued = map[uint32]*aggregatorBucket{}
+			for oldest <= newest && now > oldest+uint32(sw) {
+				oldest++
+			}
+			if oldest > newest {
+				oldest = now - uint32(sw)
+				newest = oldest - 1
+			}
+			if want := oldest + uint32(sw) + data_model.FutureWindow - 1; want > newest {
+				newest = want
+			}
 			for _, ev := range m.Tick(now, nil, nil, 0) {
 				if ev.Stray != 0 {
 					t.Fatalf("step %d: bucket %d is not owned by replica %d but has %d contributors", si, ev.Time, c.Replica, ev.Stray)
@@ -77,9 +127,11 @@ func c10PropPlace(t vpT, c c10PlaceCase) (nontrivial bool, classes []string) {
 					t.Fatalf("step %d: harness bug", si)
 				}
 			}
+			checkWindow(si)
+			if increased {
+				armed = true
+			}
 		case "send":
-			oldest := now - uint32(c.ShortWindow)
-			newest := now + data_model.FutureWindow - 1
 			at := uint32(int64(now) + int64(st.Dt))
 			rounded := at
 			for rounded%3 != uint32(c.Replica-1) {
@@ -126,6 +178,9 @@ func c10PropPlace(t vpT, c c10PlaceCase) (nontrivial bool, classes []string) {
 					t.Fatalf("%s: reference %s, long poll started but the handle is in no bucket", descr(), want)
 				}
 				if want == "accepted-recent" {
+					if armed {
+						cls["short-window-increased-at-runtime"] = true // accepted into the recent window after ShortWindow grew on a running aggregator
+					}
 					if !call.BucketRecent {
 						t.Fatalf("%s: filed into historic bucket %d, reference: recent bucket %d", descr(), call.BucketTime, rounded)
 					}
@@ -211,9 +266,19 @@ func c10GenPlace() *rapid.Generator[c10PlaceCase] {
 		c.Now = uint32(1_700_000_000 + rapid.IntRange(0, 5999).Draw(t, "now"))
 		c.WithoutCluster = rapid.IntRange(0, 7).Draw(t, "woc") == 0
 		n := rapid.IntRange(1, 14).Draw(t, "nsteps")
+		curSW := c.ShortWindow
 		for i := 0; i < n; i++ {
 			var st c10PlaceStep
-			if rapid.IntRange(0, 4).Draw(t, "k") == 0 {
+			if k := rapid.IntRange(0, 9).Draw(t, "k"); k == 0 {
+				st.Kind = "config" // remote config update on a running aggregator, usually followed by a tick
+				st.NewSW = rapid.IntRange(3, data_model.MaxShortWindow).Draw(t, "newsw")
+				curSW = st.NewSW
+				c.Steps = append(c.Steps, st)
+				if rapid.IntRange(0, 3).Draw(t, "cfgtick") != 0 {
+					c.Steps = append(c.Steps, c10PlaceStep{Kind: "tick", Advance: rapid.IntRange(1, 3).Draw(t, "cfgadv")})
+				}
+				continue
+			} else if k <= 2 {
 				st.Kind = "tick"
 				st.Advance = rapid.IntRange(1, 4).Draw(t, "adv")
 			} else {
@@ -224,13 +289,13 @@ func c10GenPlace() *rapid.Generator[c10PlaceCase] {
 				case 0: // around the future edge
 					st.Dt = data_model.FutureWindow - 1 + rapid.IntRange(-3, 3).Draw(t, "dt")
 				case 1, 2: // around the oldest recent second
-					st.Dt = -c.ShortWindow + rapid.IntRange(-3, 3).Draw(t, "dt")
+					st.Dt = -curSW + rapid.IntRange(-3, 3).Draw(t, "dt")
 				case 3: // around the end of the historic window
-					st.Dt = -c.ShortWindow - c.HistoricWindow + rapid.IntRange(-3, 3).Draw(t, "dt")
+					st.Dt = -curSW - c.HistoricWindow + rapid.IntRange(-3, 3).Draw(t, "dt")
 				case 4:
-					st.Dt = rapid.IntRange(-c.ShortWindow-c.HistoricWindow-10, data_model.FutureWindow+6).Draw(t, "dt")
+					st.Dt = rapid.IntRange(-curSW-c.HistoricWindow-10, data_model.FutureWindow+6).Draw(t, "dt")
 				default: // inside the recent window
-					st.Dt = rapid.IntRange(-c.ShortWindow, data_model.FutureWindow-1).Draw(t, "dt")
+					st.Dt = rapid.IntRange(-curSW, data_model.FutureWindow-1).Draw(t, "dt")
 				}
 				if rapid.IntRange(0, 11).Draw(t, "wsr") == 0 {
 					st.WrongSR = rapid.SampledFrom([]int{-1, 1, 2, 3}).Draw(t, "wrong")
@@ -266,6 +331,35 @@ func TestVerifC10PlaceGrid(t *testing.T) {
 					nt, cls := c10PropPlace(t, c)
 					ev.Case(nt, map[string]any{"replica": replica, "now_mod6": nowMod, "sw": sw}, cls...)
 				})
+			}
+		}
+	}
+	// ShortWindow changed on a running aggregator: every transition inside the allowed range x replica x (now mod 3)
+	// x ticks of 1 or 2 s, with sends across the whole recent window before and after every tick
+	for _, tr := range [][2]int{{3, 4}, {3, 5}, {4, 5}, {5, 4}, {5, 3}, {4, 3}} {
+		for replica := int32(1); replica <= 3; replica++ {
+			for nowMod := 0; nowMod < 3; nowMod++ {
+				for adv := 1; adv <= 2; adv++ {
+					c := c10PlaceCase{Replica: replica, Shard: 1, ShortWindow: tr[0], HistoricWindow: 9, Now: uint32(1_700_000_301 + nowMod)}
+					sweep := func(sw int) {
+						for dt := -sw - 2; dt <= data_model.FutureWindow+1; dt++ {
+							c.Steps = append(c.Steps, c10PlaceStep{Kind: "send", Dt: dt, Historic: dt%2 == 0, Spare: dt%3 == 0})
+							n++
+						}
+					}
+					c.Steps = append(c.Steps, c10PlaceStep{Kind: "tick", Advance: 1})
+					sweep(tr[0])
+					c.Steps = append(c.Steps, c10PlaceStep{Kind: "config", NewSW: tr[1]})
+					for k := 0; k < 4; k++ {
+						c.Steps = append(c.Steps, c10PlaceStep{Kind: "tick", Advance: adv})
+						sweep(tr[1])
+					}
+					c.Steps = append(c.Steps, c10PlaceStep{Kind: "tick", Advance: tr[1] + data_model.FutureWindow + 1})
+					vpRunCase(t, "C10", "place", c, func() {
+						nt, cls := c10PropPlace(t, c)
+						ev.Case(nt, map[string]any{"replica": replica, "now_mod3": nowMod, "from": tr[0], "to": tr[1], "adv": adv}, cls...)
+					})
+				}
 			}
 		}
 	}
